@@ -17,9 +17,13 @@ def gen(c, binary):
 
 
 def run(c):
-    c.rule = ("every case: a real JWTHelper (2 configured Ed25519 keys via ParseVkuthKeys, sometimes a wrong-size one, an unconfigured "
-              "third key; injected clock) parses a SEQUENCE of 1-5 tokens in one process. Each token is minted from a spec = a valid "
-              "token changed in 0 (30%), 1 (60%) or 2 (10%) aspects out of alg / kind / kid / signature / iss / user / exp / iat / nbf "
+    c.rule = ("every case: 1-4 fresh Ed25519 keys are configured through the REAL vkuth.ParseVkuthKeys from their base64 list (key rotation; "
+              "sometimes a key listed twice, sometimes an extra wrong-size entry) plus one unconfigured key; the resulting map is compared "
+              "entry by entry with the model's key table (kid = fingerprint -> that key's own bytes) and handed to a real JWTHelper "
+              "(injected clock), which parses a SEQUENCE of 1-5 tokens in one process. Each token is minted from a spec = a valid "
+              "token signed by one of the configured keys and naming it, changed in 0 (30%), 1 (60%) or 2 (10%) aspects out of alg / kind / "
+              "kid (another configured key, the unconfigured key, junk) / signature (signed by another configured key, by the LAST configured "
+              "key, by the unconfigured key, bit flip, truncation, ...) / iss / user / exp / iat / nbf "
               "(+-5 s boundaries at ms, quarter-second and second offsets) / malformed segments; claims JSON shapes: bits key present / "
               "absent / null / [], vkuth_data absent / null, user / iss / exp / iat / nbf absent or null, is_service omitted / false / "
               "null; bit sets: first token usually privileged, later tokens random / bit-less / a subset of the previous token's bits / "
@@ -30,8 +34,12 @@ def run(c):
               "is a disagreement. non-trivial = some token differs from a valid one in exactly one aspect, or a non-admin edit reached "
               "the field checks, or an accepted bit-less token follows a token that carried own-prefix bits; distinct by op-sequence hash")
     c.assumptions += [
-        "Ed25519 is not modelled: for every configured key the harness verifies the signature segment itself with crypto/ed25519 "
-        "and passes the list of key ids that verify to the model (Token.sigOk)",
+        "Ed25519 is not modelled: the harness verifies the signature segment itself with crypto/ed25519 under each of ITS OWN public keys "
+        "(configured or not; never the map returned by the code under test) and passes the list of key BYTES that verify to the model "
+        "(Token.sigValid, i.e. valid : Key -> Token -> Bool as data); the model looks the kid up in its key table and demands that THAT "
+        "key is in the list",
+        "sha256 is not modelled: key fingerprints (= key ids) are computed by the harness independently (hex of the first 8 bytes of "
+        "SHA-256) and are a parameter `fp` of the model's parseKeys",
         "base64 / JSON decoding of the token segments by golang-jwt and encoding/json is not modelled: a token whose segments do not "
         "decode is the model input `malformed`; header and claim values reach the model as the harness's spec of the token",
         "golang-jwt's check order and error bits (ParseWithClaims) are modelled and compared through the error mask of every rejection",
@@ -71,7 +79,9 @@ META = {
                   "bit parsing and the view/edit policy + differential correspondence with the real parseAccessToken / CanViewMetricName / "
                   "canChangeMetricByName / CanEditMetric on minted Ed25519 tokens + direct property oracle"),
     "text": ("Kernel-checked: a token is accepted iff alg=EdDSA, kind=token, kid names a configured key under which the signature verifies, "
-             "iss=vkuth, user non-empty, exp present and now < exp+5s, iat present and iat <= now+5s, nbf absent or <= now (accept_iff, "
+             "(the key table kid -> key bytes is modelled: parseKeys = ParseVkuthKeys stores every listed key under its own fingerprint "
+             "(parseKeys_sound / parseKeys_complete), and an accepted token's signature verifies under THE listed key whose fingerprint its "
+             "kid is (accept_signed_by_named_key, wrong_key_rejected)), iss=vkuth, user non-empty, exp present and now < exp+5s, iat present and iat <= now+5s, nbf absent or <= now (accept_iff, "
              "parse_ok_only_if); the accessInfo depends only on bits carrying the application prefix and every granted flag / prefix / "
              "metric traces back to such a bit (grants_only_app_bits, *_traced); a non-admin views a name only through a metric, prefix, "
              "namespace or default-unprotected bit of the token (view_only_through_bit), edits only with such a right on both names "
